@@ -76,6 +76,20 @@ def width_of(a) -> int:
     return 0
 
 
+def effective_width(a) -> int:
+    """Width of the *values*: a float64 array whose every entry is exactly a float32 number has been
+    squeezed through single precision somewhere (chance for genuine float64 data: 2^-29 per entry).
+    Arrays of fewer than 4 entries, or of integers / small dyadic rationals only, keep their nominal width."""
+    w = width_of(a)
+    if w != 64:
+        return w
+    v = np.asarray(to_np(a), dtype=np.float64).ravel()
+    v = v[np.isfinite(v)]
+    if v.size < 4 or np.all(v * 1024 == np.round(v * 1024)):
+        return w
+    return 32 if np.all(v.astype(np.float32).astype(np.float64) == v) else 64
+
+
 def ns_of(a) -> str:
     m = type(a).__module__
     if m.startswith("torch"):
@@ -195,9 +209,10 @@ class Tracer:
             prior_ok = (lpn.shape[0] == x.shape[0]) and close(lpn, self.prob.lp_np(x), width_of(samples.x))
         e = {"t": "like", "batch": self.ids.of(x), "n": int(len(x)), "k": self.k,
              "has_prior": bool(has_prior), "prior_ok": bool(prior_ok),
-             "width": width_of(samples.x), "ns": ns_of(samples.x), "inker": self.in_kernel}
+             "width": effective_width(samples.x), "ns": ns_of(samples.x), "inker": self.in_kernel}
         if self.file_path is not None:
             e["file"] = read_file_state(self.file_path, self.ids)
+            e["file"]["flow_cur"] = flow_currency(e["file"], getattr(getattr(self, "aspire", None), "flow", None))
             smp = getattr(getattr(self, "aspire", None), "_sampler", None)
             lb = getattr(smp, "_last_checkpoint_bytes", None)
             e["file"]["last_bytes"] = self.ids.of_bytes(lb) if lb else 0
@@ -282,6 +297,16 @@ class LoggingRNG:
         return getattr(self._g, name)
 
 
+def flow_currency(fs: dict, flow) -> str:
+    """Is the proposal stored in the file the one the instance is sampling with?  yes / stale / none
+    (decidable for the VerifFlow stand-in, whose parameters are stored verbatim)."""
+    fp = fs.pop("_flow_params", None)
+    if fp is None or flow is None or not hasattr(flow, "loc"):
+        return "none"
+    cur = np.concatenate([np.ravel(flow.loc), np.ravel(flow.scale)])
+    return "yes" if (fp.shape == cur.shape and np.array_equal(fp, cur)) else "stale"
+
+
 def read_file_state(path, ids: IdTable):
     import h5py
     out = {"exists": False, "has_cfg": False, "has_flow": False, "blob": 0, "blob_iter": -1,
@@ -293,6 +318,8 @@ def read_file_state(path, ids: IdTable):
         with h5py.File(path, "r") as f:
             out["has_cfg"] = "aspire_config" in f
             out["has_flow"] = "flow" in f
+            if out["has_flow"] and "loc" in f["flow"] and "scale" in f["flow"]:
+                out["_flow_params"] = np.concatenate([np.ravel(f["flow"]["loc"][()]), np.ravel(f["flow"]["scale"][()])])
             if out["has_cfg"] and "sampler_type" in f["aspire_config"]:
                 v = f["aspire_config"]["sampler_type"][()]
                 out["cfg_sampler"] = v.decode() if isinstance(v, bytes) else str(v)
@@ -679,6 +706,11 @@ def run_aspire(cfg: dict, ids: IdTable | None = None, role="single", resume_file
     prob.recipe = bool(c["recipe"])
     tr = Tracer(prob, ids, fault_k=c["fault_k"], recipe=c["recipe"], file_path=c["path"])
     tr.fault_on = c["fault_on"]
+    # the measured run may be preceded, inside one auto_checkpoint context, by an earlier fit + run
+    # and a refit (cfg["ctx"] = "refit"); the prelude is observed by a throw-away tracer
+    tr0 = Tracer(prob, ids, recipe=c["recipe"])
+    cur = {"tr": tr0 if c.get("ctx") else tr}
+    ctx_cm = None
     minipcn_stub.reset(); emcee_stub.reset()
     minipcn_stub.OBSERVER = tr.kernel_event
     emcee_stub.OBSERVER = tr.kernel_event
@@ -695,12 +727,16 @@ def run_aspire(cfg: dict, ids: IdTable | None = None, role="single", resume_file
     try:
         verifflow_mod.OBSERVER = None
         if resume_file is None:
-            a = Aspire(log_likelihood=tr.log_likelihood, log_prior=tr.log_prior, dims=c["dims"],
+            a = Aspire(log_likelihood=(lambda smp: cur["tr"].log_likelihood(smp)), log_prior=(lambda smp: cur["tr"].log_prior(smp)),
+                       dims=c["dims"],
                        parameters=params, prior_bounds={q: [-5.0, 5.0] for q in params},
                        flow_backend="verifflow", xp=xp, dtype=c["dtype"], seed=c["flow_seed"],
                        bounded_to_unbounded=False)
             trng = np.random.default_rng(c["flow_seed"])
             train = trng.normal(0.3, 1.5, size=(64, c["dims"]))
+            if c.get("ctx") and c["path"] is not None:
+                ctx_cm = a.auto_checkpoint(c["path"], every=c["every"] or 1)
+                ctx_cm.__enter__()
             a.fit(Samples(train, xp=xp, dtype=c["dtype"]))
         else:
             a = Aspire.resume_from_file(resume_file, log_likelihood=tr.log_likelihood,
@@ -723,10 +759,27 @@ def run_aspire(cfg: dict, ids: IdTable | None = None, role="single", resume_file
             kw["n_steps"] = c["n_steps"]
         if c["n_final"] is not None:
             kw["n_final_samples"] = c["n_final"]
-        if c["path"] is not None:
+        if c["path"] is not None and ctx_cm is None:
             kw["checkpoint_path"] = c["path"]
             if c["every"] is not None:
                 kw["checkpoint_every"] = c["every"]
+        if ctx_cm is not None:
+            # earlier run in the same context, then a refit on other data (no overwrite)
+            minipcn_stub.OBSERVER = emcee_stub.OBSERVER = None
+            verifflow_mod.OBSERVER = None
+            kw0 = dict(kw)
+            if "rng" in kw0:
+                kw0["rng"] = np.random.default_rng(c["seed"] + 17)
+            a.sample_posterior(**kw0)
+            a.fit(Samples(trng.normal(-0.4, 0.8, size=(64, c["dims"])), xp=xp, dtype=c["dtype"]))
+            cur["tr"] = tr
+            tr.flow = a.flow
+            minipcn_stub.reset(); emcee_stub.reset()
+            minipcn_stub.OBSERVER = emcee_stub.OBSERVER = tr.kernel_event
+            verifflow_mod.OBSERVER = tr.flow_event
+            minipcn_stub.SPLIT = c["split"]
+            minipcn_stub.SCALE = emcee_stub.SCALE = c["scale"]
+            minipcn_stub.MAX_SAMPLE_CALLS = emcee_stub.MAX_SAMPLE_CALLS = c["budget"]
         tr.aspire = a
         result = a.sample_posterior(**kw)
     except InjectedFault as ex:
@@ -739,9 +792,15 @@ def run_aspire(cfg: dict, ids: IdTable | None = None, role="single", resume_file
         minipcn_stub.OBSERVER = None
         emcee_stub.OBSERVER = None
         verifflow_mod.OBSERVER = None
+        if ctx_cm is not None:
+            try:
+                ctx_cm.__exit__(None, None, None)
+            except Exception:
+                pass
     sampler = getattr(a, "_sampler", None) if a is not None else None
     if c["path"] is not None:
         fs = read_file_state(c["path"], ids)
+        fs["flow_cur"] = flow_currency(fs, getattr(a, "flow", None))
         lb = getattr(sampler, "_last_checkpoint_bytes", None) if sampler is not None else None
         fs["last_bytes"] = ids.of_bytes(lb) if lb else 0
         tr.ev.append({"t": "filecheck", "file": fs, "end": True, "status": status})
@@ -866,6 +925,10 @@ def _project_run(r, rank) -> dict:
            "rng_calls": int(urng.ncalls)}
     if r["status"] == "ok":
         evs.append(_project_final(r, rank, hist_pops, hist_ids, betas, margin))
+    elif r["status"] == "fault" and int(r.get("nlike_total", -1)) >= 0:
+        # the run was left through an exception raised inside a user call: the counter must account
+        # for every batch the likelihood was asked to evaluate, the interrupted one included
+        evs.append({"t": "fault", "nlike": int(r["nlike_total"]) - int(r.get("nlike_offset", 0))})
     elif r["status"] == "truncated" and H is not None:
         # still report the schedule seen so far (progress monitor)
         evs.append({"t": "partial", "betas": [rank[b] for b in betas],
@@ -877,7 +940,7 @@ def _project_run(r, rank) -> dict:
 def _file_proj(f):
     return {"last_bytes": int(f.get("last_bytes", 0)), "exists": bool(f["exists"]), "has_cfg": bool(f["has_cfg"]), "has_flow": bool(f["has_flow"]),
             "blob": int(f["blob"]), "blob_iter": int(f["blob_iter"]), "cfg_sampler": f["cfg_sampler"],
-            "loadable": bool(f["loadable"])}
+            "loadable": bool(f["loadable"]), "flow_cur": f.get("flow_cur", "none")}
 
 
 def _project_choice(e, hist_pops, betas, rank, c):
